@@ -94,7 +94,9 @@ def array_from_args(array_args, array_kwargs, *args):
 
 def select(condlist, choicelist, default=0):
     raw_array = _np.select(list(condlist), list(choicelist), default=default)
-    return array(list(raw_array.ravel())).reshape(raw_array.shape)
+    # like numpy, the result dtype is promoted over all choices and the default, not only the selected entries
+    dtype = result_type(*(list(choicelist) + [default]))
+    return array(list(raw_array.ravel()), dtype=dtype).reshape(raw_array.shape)
 
 
 def stack(arrays, axis=0):
